@@ -32,24 +32,43 @@ DRIVERS = ["drv_async"]
 TRUSTED = [
     "modelled, not verified: the virtual clock and the scripted channel stand in for time.time() and select(); "
     "a message readable exactly at a deadline is taken as readable (for a reply the outcome is the same either way, "
-    "since `expired` uses >=); one thread drives the connection (thread hand-off is C13/C14); callbacks return normally",
+    "since `expired` uses >=); one thread drives the connection (thread hand-off is C13/C14)",
+    "not modelled: rpyc.lib.compat.PollingPoll.poll converts the remaining time with `if timeout: timeout = 1000*timeout` "
+    "(a sub-millisecond timeleft becomes a zero-length poll: the wait loop spins until the deadline instead of sleeping); "
+    "`Timeout` built from NaN (infinite) or +inf (finite, never expires); `set_expiry(Timeout(...))` sharing a deadline object",
 ]
 ASSUMPTIONS = [
     "arrival of a reply means the instant it is dispatched (`AsyncResult.__call__` runs), not the instant its bytes "
     "reach the socket: a reply that sits unread in the channel past the expiry is discarded, as the code does",
-    "expiry-is-final is stated for as long as the expiry is not re-armed by a later set_expiry (async_request and "
-    "timed set it once); readiness-is-final is unconditional",
-    "a callback that raises aborts the remaining callbacks of that result (not part of the statement; callbacks are "
-    "assumed to return)",
+    "the clock is monotone and time is integral: the model's clock is a natural number of ticks that never runs backwards "
+    "and timeouts are whole ticks (checked at 1 s, 0.25 s and 1/1024 s per tick, exact in floating point). "
+    "rpyc.lib.Timeout reads the wall clock time.time(): a backwards step of the wall clock makes wait() raise late, a "
+    "forwards step makes it raise earlier than the requested number of seconds; sums that are not exact in floating point "
+    "can move a tie between a deadline and an arrival either way",
+    "expiry-is-final is stated for as long as the expiry is not re-armed by a later set_expiry (async_request and timed set "
+    "it once): on the pinned code `set_expiry` on an expired result makes it pending again (theorem rearm_revives; replay "
+    "`X1 T1 x X5 x` shows expired True then False), and if its reply had already been discarded it can then never "
+    "complete (`X1 T1 AF7 XN w` waits for ever) - reported; readiness-is-final is unconditional",
+    "callbacks return normally in the worlds the main theorems quantify over.  On the pinned code a callback that raises "
+    "aborts `__call__`: the result is ready and its value available, the callbacks registered after it NEVER run, the list "
+    "is not cleared, the exception surfaces in whichever thread was serving (model `callR`, theorems "
+    "C15_callbacks_counterexample / C15_callbacks_partial / raising_callback_outcome; real-code replay "
+    "`async call F 5 F 7 c1! c2`) - reported as a finding candidate, not yet decided",
     "the connection stays open (EOFError handling is C11)",
 ]
-EXPLANATION = ("Theorems over all event sequences and all timeout values (None, negative = infinite, zero, positive): "
+EXPLANATION = ("Property theorems over all event sequences and all timeout values (None, negative = infinite, zero, positive): "
                "readiness is final (value and is_exc never change, later replies ignored); expiry while pending is final "
                "until re-armed (later replies discarded, no callback runs, every wait raises); callbacks run exactly once "
                "in registration order at the arrival instant, or at once when registered later; wait never raises before "
                "the deadline and raises exactly at max(deadline, call instant) unless the last serve started a request "
-               "no later than the deadline, in which case at that request's end; sync_request = async_request with the "
-               "configured timeout followed by .value.")
+               "no later than the deadline, in which case at that request's end; a sync request times out exactly tau after "
+               "it was issued; several requests on one connection (replies carry their request's number) are projections of "
+               "one connection and reach each other only as environment events, so finality holds per request whatever is "
+               "done with the others; `__call__` with raising / re-entrant callbacks: statement, counterexample, partial. "
+               "NOT counted as property theorems (one-step unfoldings of the transcription, kept in Async/Lemmas.lean): "
+               "timeout_finite_iff, timeout_deadline, infinite_never_expires, late_reply_discarded, "
+               "reply_accepted_when_pending, callback_after_ready_runs_at_once, sync_is_async_plus_timeout, "
+               "timed_is_async_with_timeout, each_request_own_deadline.")
 
 TIMEOUTS = [None, -1, 0, 1, 3]
 
@@ -283,7 +302,8 @@ class Sim:
         res = self.res
         self.chan.idle_polls = 0
         if res is not None and res._is_ready and self.ra_for is not res and self.own_reply_times():
-            self.ra, self.ra_for = self.own_reply_times()[-1], res
+            # the reply that was accepted is the first one dispatched for this request (it pops the registry entry)
+            self.ra, self.ra_for = self.own_reply_times()[0], res
         return "%s@%s" % (out, fmt_t(self.now_ticks()))
 
     def _event(self, tok):
@@ -436,6 +456,182 @@ def rc_restore(rc, items):
             del rc[k]
     for k, v in items:
         rc[k] = v
+
+
+class MultiSim(Sim):
+    """several live requests on one real connection; the token language of `async multi`"""
+
+    def __init__(self, t0=0, unit=1):
+        Sim.__init__(self, t0, unit, first_request=False)
+        self.results, self.logs, self.ras = [], [], []
+        self.focus = None
+
+    def focus_ordinal(self):
+        return self.focus if self.focus is not None else len(self.seqs) - 1
+
+    def apply(self, tok):
+        if tok[0] == "Q":
+            self.results.append(self.conn.async_request(self.consts.HANDLE_PING, "x", timeout=self.secs(parse_tau(tok[1:]))))
+            self.logs.append([])
+            self.ras.append(None)
+            out = "-@%s" % fmt_t(self.now_ticks())
+        elif tok[0].isdigit():
+            k, inner = tok.split(".", 1)
+            k = int(k)
+            if k >= len(self.results) or inner[0] not in "XCrexvwA":
+                raise BadSequence(tok)
+            self.focus, self.res, self.cblog = k, self.results[k], self.logs[k]
+            try:
+                if inner[0] == "C":
+                    self.res.add_callback(CB(int(inner[1:]), self, self.logs[k], self.res))
+                    out = "-@%s" % fmt_t(self.now_ticks())
+                else:
+                    out = Sim.apply(self, inner)
+            finally:
+                self.focus = None
+        elif tok[0] in "TVUS":
+            self.res = None
+            out = Sim.apply(self, tok)
+        else:
+            raise BadSequence(tok)
+        for k, r in enumerate(self.results):
+            mine = self.own_reply_times(k)
+            if r._is_ready and self.ras[k] is None and mine:
+                self.ras[k] = mine[0]
+        return out
+
+    def states(self):
+        out = []
+        for k, r in enumerate(self.results):
+            self.res, self.cblog, self.ra, self.seq = r, self.logs[k], self.ras[k], self.seqs[k]
+            out.append("| " + Sim.state(self))
+        return out
+
+
+def run_impl_multi(t0, toks, unit=1):
+    sim = MultiSim(t0, unit)
+    try:
+        out = [sim.apply(t) for t in toks]
+        return " ".join(out + sim.states())
+    finally:
+        sim.close()
+
+
+class RCB:
+    """a callback that may register further callbacks from inside itself, read the value, issue a request, and raise"""
+
+    def __init__(self, spec, sim, log):
+        self.spec, self.sim, self.log = spec, sim, log
+
+    def __call__(self, res):
+        cid, raises, adds, extra = self.spec
+        self.log.append("%d@%s" % (cid, fmt_t(self.sim.now_ticks())))
+        for a in adds:
+            res.add_callback(RCB((a, False, [], None), self.sim, self.log))
+        if extra == "value":
+            try:
+                res.value
+            except KeyError:
+                pass
+        elif extra == "request":
+            self.sim.conn.async_request(self.sim.consts.HANDLE_PING, "y")
+        if raises:
+            raise RuntimeError("callback %d" % cid)
+
+
+def call_case_line(case):
+    expired, now, exc, specs = case
+    return "async call %s %d %s 7 %s" % ("T" if expired else "F", now, "T" if exc else "F", " ".join(
+        "c%d%s%s" % (cid, "!" if raises else "", "+" + ",".join(map(str, adds)) if adds else "")
+        for cid, raises, adds, _x in specs))
+
+
+def run_call_case(case):
+    """`AsyncResult.__call__` alone on the real code with such callbacks: the reply is dispatched, then the result is
+    looked at: slots, stored callbacks, log, whether the dispatch raised; and afterwards that the value stays available
+    and nothing runs again"""
+    expired, now, exc, specs = case
+    sim = Sim(0)
+    try:
+        log = []
+        if expired:
+            sim.res.set_expiry(0)
+        sim.clock.sleep(now)
+        objs = [RCB(sp, sim, log) for sp in specs]
+        for o in objs:
+            sim.res.add_callback(o)
+        raised = "F"
+        res = sim.res
+        try:
+            sim.conn._dispatch(sim.encode(("R", 0, exc, 7)))
+        except RuntimeError:
+            raised = "T"
+        sim.res = res          # (a callback that issued a request of its own must not change which result is looked at)
+        line = "st %s %s %s cb[%s] log[%s] raised%s" % (
+            tri(res._is_ready), tri(res._is_exc), sim._payload(res._obj),
+            ",".join(str(f.spec[0]) for f in res._callbacks), ",".join(log), raised)
+        # afterwards: the value is (still) available iff ready, and no callback runs again whatever is served
+        n = len(log)
+        after = []
+        sim.chan.queue.append((sim.clock.now, ("R", 0, False, 9)))
+        for tok in ("V", "r", "v", "T1", "V", "v"):
+            after.append(sim.apply(tok).rsplit("@", 1)[0])
+        want_after = ["-", "T", ("exc:7" if exc else "val:7"), "-", "-", ("exc:7" if exc else "val:7")] if not expired else None
+        if want_after and (after != want_after or len(log) != n):
+            line += " !afterwards:%s,log+%d" % (",".join(after), len(log) - n)
+        return line
+    finally:
+        sim.close()
+
+
+def call_cases():
+    """all lists of up to 3 callbacks over {returns, raises, registers two more, registers one and raises, reads the value,
+    issues a request} x reply kind, and a few on an expired result"""
+    kinds = [lambda i: (i, False, [], None), lambda i: (i, True, [], None), lambda i: (i, False, [10 * i, 10 * i + 1], None),
+             lambda i: (i, True, [10 * i], None), lambda i: (i, False, [], "value"), lambda i: (i, False, [], "request")]
+    out = []
+    for n in (0, 1, 2, 3):
+        for combo in itertools.product(range(len(kinds)), repeat=n):
+            specs = [kinds[k](i + 1) for i, k in enumerate(combo)]
+            out.append((False, 5, sum(combo) % 2 == 1, specs))
+    out.append((True, 5, False, [kinds[0](1), kinds[1](2)]))
+    out.append((True, 0, True, [kinds[1](1)]))
+    return out
+
+
+def gen_multi(r):
+    """2-3 live requests: replies in any order, late replies to an abandoned request crossing the next one, results waited
+    on alternately"""
+    toks, n = [], 0
+    for _ in range(r.range(3, 14)):
+        k = r.below(12)
+        if n == 0 or (k == 0 and n < 3):
+            toks.append("Q" + tau_tok(r.choice(TIMEOUTS + [2, 5])))
+            n += 1
+        elif k <= 2:
+            toks.append("S%d:R%d:%s%d" % (r.choice([0, 1, 2, 3, 5]), r.below(n), r.choice("TF"), r.range(1, 9)))
+        elif k == 3:
+            toks.append(r.choice(["S%d:O%d" % (r.below(4), r.choice([0, 1, 3])), "T%d" % r.choice([1, 2, 4]), "V",
+                                  "U%d" % r.below(4)]))
+        else:
+            toks.append("%d.%s" % (r.below(n), r.choice(["v", "w", "r", "x", "e", "v", "w", "C%d" % r.range(1, 9),
+                                                         "X" + tau_tok(r.choice(TIMEOUTS)), "A%s%d" % (r.choice("TF"), r.range(1, 9))])))
+    return toks
+
+
+def multi_corpus():
+    return [
+        # the late reply of an abandoned request arrives while the next request is waited for
+        "Q2 S5:R0:F11 0.v T1 QN S3:R1:F22 1.v 0.r 0.x".split(),
+        "Q1 0.C1 S4:R0:F11 0.w Q3 1.C2 S1:R1:T22 1.v 0.x 1.x".split(),
+        # replies in the opposite order of the requests; waiting on one serves the other
+        "QN QN 0.C1 1.C2 S1:R1:F22 S2:R0:F11 0.v 1.r 1.v".split(),
+        "Q3 Q3 S1:O3 S1:R0:F1 S1:R1:F2 1.v 0.v".split(),
+        # alternately
+        "QN Q2 S3:R0:F1 S1:R1:F2 1.w 0.r 0.w 1.x T5 1.v".split(),
+        "Q0 QN S0:R0:F1 S0:R1:F2 1.v 0.v 0.x".split(),
+        "QN 0.AF1 QN S0:R0:F5 V 0.v 1.r".split(),
+    ]
 
 
 def tri(b):
@@ -937,11 +1133,15 @@ def correspondence(ctx):
               "issued late or repeatedly (a timed() wrapper made at t0 and called 2-3 times after delays 0/<tau/=tau/>tau, "
               "async_request(timeout=) repeated, sync_request on a connection older than its timeout; each reply before / "
               "at / after that call's own deadline); fire-and-forget (callbacks registered, the application drops its only "
-              "reference to the result, then the reply is dispatched before / after the expiry); whole-connection "
+              "reference to the result, then the reply is dispatched before / after the expiry); the same families at 0.25 s "
+              "and 1/1024 s per tick (fractional timeouts); several live requests on one connection (replies carry their "
+              "request's number: stale late replies crossing a new request, replies in the opposite order, results waited "
+              "on alternately) against the multi-request model; `__call__` with every list of <= 3 callbacks over {returns, "
+              "raises, registers more from inside, registers and raises, reads the value, issues a request}; whole-connection "
               "scenarios over the deterministic network. Non-trivial = the sequence contains a reply or an expiry "
               "and at least one query/wait; distinct = distinct full observation trace (results, instants, final slots, "
               "callback log).")
-    depth_main = ctx.budget(6, 7)
+    depth_main = ctx.budget(5, 7)              # reply put into the channel now, value
     depth_other = ctx.budget(5, 6)
     depth_top = ctx.budget(6, 8)               # reply dispatched now, value
     lines, impl = [], []
@@ -1031,6 +1231,45 @@ def correspondence(ctx):
             c.count("reused-wrapper/late-request:" + ("timed" if toks[0][0] == "W" else "sync" if any(
                 t[0] == "Y" for t in toks) else "async_request"))
         flush(False)
+        # the same families with a fractional second per tick (timeouts and instants like 0.75 s, 3/1024 s)
+        for unit in (0.25, 2.0 ** -10):
+            fam = forget_sequences()[::3] + reuse_sequences()[::2] + boundary_sequences()
+            want = [run_impl(0, toks, unit) for toks in fam]
+            got = run_driver(["async run 0 " + " ".join(toks) for toks in fam], exe="drv_async")
+            for toks, a, b in zip(fam, want, got):
+                c.evaluations += 1
+                c.count("fractional-time:unit=%s" % unit)
+                if " st ? " in a:
+                    b = blind(b)
+                if "D" in toks:
+                    a, b = no_ra(a), no_ra(b)
+                if a != b and len(c.disagreements) < 200:
+                    c.disagreements.append(dict(case="unit=%s 0 %s" % (unit, " ".join(toks)), impl=a, model=b))
+        # several live requests on one connection
+        multi = multi_corpus() + [gen_multi(r) for _ in range(ctx.budget(2500, 50000))]
+        for unit in (1, 0.25):
+            part = multi if unit == 1 else multi[:len(multi) // 3]
+            want = [run_impl_multi(0, toks, unit) for toks in part]
+            got = run_driver(["async multi 0 " + " ".join(toks) for toks in part], exe="drv_async")
+            for toks, a, b in zip(part, want, got):
+                c.evaluations += 1
+                c.count("multi-request:%d-requests" % sum(1 for t in toks if t[0] == "Q"))
+                if a != b:
+                    if len(c.disagreements) < 200:
+                        c.disagreements.append(dict(case="multi unit=%s 0 %s" % (unit, " ".join(toks)), impl=a, model=b))
+                elif sum(1 for t in toks if t[0] == "Q") > 1:
+                    c.signatures.add(hash(a))
+        # `__call__` with raising / re-entrant callbacks
+        cases = call_cases()
+        want = [run_call_case(cs) for cs in cases]
+        got = run_driver([call_case_line(cs) for cs in cases], exe="drv_async")
+        for cs, a, b in zip(cases, want, got):
+            c.evaluations += 1
+            c.count("call-with-raising-or-reentrant-callbacks")
+            if a != b:
+                c.disagreements.append(dict(case=call_case_line(cs), impl=a, model=b))
+            else:
+                c.signatures.add(hash(a))
         n_seeded = ctx.budget(20000, 400000)
         for i in range(n_seeded):
             toks = gen_sequence(r, r.range(1, 14))
@@ -1235,6 +1474,58 @@ def oracle_sequence(t0, toks):
         sim.close()
 
 
+def oracle_multi(toks):
+    """the statement, request by request, on a history with several live requests: a request's own reply decides it iff
+    it is dispatched while the request is pending and before the deadline then in force; callbacks once, in order, at
+    that instant (or at registration, if later); waiting never raises the timeout error before the deadline.  Replies
+    carrying another request's number must make no difference."""
+    sim = MultiSim(0)
+    try:
+        dls, regs, decided, arrival = [], [], [], []
+        for i, tok in enumerate(toks):
+            t_before = sim.now_ticks()
+            n_replies = len(sim.reply_times)
+            obs = sim.apply(tok).rsplit("@", 1)[0]
+            now = sim.now_ticks()
+            if obs.startswith("raised:"):
+                return "event %d (%s): raised %s" % (i, tok, obs[7:])
+            for at, o in sim.reply_times[n_replies:]:
+                if o < len(decided) and decided[o] is None:      # the first reply dispatched for request o decides it
+                    decided[o] = dls[o] is None or at < dls[o]
+                    arrival[o] = at
+            if tok[0] == "Q":
+                tau = parse_tau(tok[1:])
+                dls.append(t_before + tau if tau is not None and tau >= 0 else None)
+                regs.append([])
+                decided.append(None)
+                arrival.append(None)
+            elif tok[0].isdigit():
+                k, inner = tok.split(".", 1)
+                k = int(k)
+                if inner[0] == "X":
+                    tau = parse_tau(inner[1:])
+                    dls[k] = t_before + tau if tau is not None and tau >= 0 else None
+                elif inner[0] == "C":
+                    regs[k].append((int(inner[1:]), t_before))
+                elif inner[0] in "vw":
+                    if obs == "TO" and (dls[k] is None or now < dls[k]):
+                        return "event %d (%s): timeout error at %s, expiry %s" % (i, tok, fmt_t(now), dls[k])
+                    if obs not in ("TO", "HANG", "SPIN") and not sim.results[k]._is_ready:
+                        return "event %d (%s): returned %s while not ready" % (i, tok, obs)
+        for k, r in enumerate(sim.results):
+            want_ready = bool(decided[k])
+            if bool(r._is_ready) != want_ready:
+                return "request %d: ready is %s; its reply was dispatched at %s, expiry then in force decided %s" % (
+                    k, r._is_ready, arrival[k], decided[k])
+            want_log = [(cid, max(t, arrival[k])) for cid, t in regs[k]] if want_ready else []
+            got_log = [(cid, t) for cid, t, _ok in sim.logs[k]]
+            if got_log != want_log:
+                return "request %d: callbacks ran as %r, the statement requires %r" % (k, got_log, want_log)
+        return None
+    finally:
+        sim.close()
+
+
 def oracle_sync(tau, sends):
     """a synchronous request = an asynchronous one carrying the configured timeout, then .value"""
     a = run_impl(0, sends + ["Y" + tau_tok(tau)])
@@ -1322,6 +1613,14 @@ def oracle_search(ctx, corr, broken):
             f = found(t0, toks, msg)
             if f:
                 return f
+    rm = Rng(ctx.seed).fork("c15-multi")
+    for toks in multi_corpus() + [gen_multi(rm) for _ in range(3000)]:
+        try:
+            msg = oracle_multi(toks)
+        except BadSequence:
+            msg = None
+        if msg:
+            return dict(kind="history", multi=True, t0=0, events=" ".join(toks)), msg, "c15:multi"
     for tau in TIMEOUTS:
         for sends in ([], ["S1:NF7"], ["S2:O3", "S6:NT7"], ["S4:NF7"], ["S0:NF7"]):
             msg = oracle_sync(tau, sends)
@@ -1348,6 +1647,17 @@ def oracle_search(ctx, corr, broken):
 
 def replay(case):
     out = dict(case=case)
+    if case.get("multi"):
+        toks = case["events"].split()
+        out["oracle"] = oracle_multi(toks) or "holds"
+        out["implementation"] = run_impl_multi(0, toks)
+        out["model"] = run_driver(["async multi 0 " + " ".join(toks)], exe="drv_async")[0]
+        return out
+    if case.get("kind") == "call":
+        cs = (case["expired"], case["now"], case["exc"], [tuple(x) for x in case["callbacks"]])
+        out["implementation"] = run_call_case(cs)
+        out["model"] = run_driver([call_case_line(cs)], exe="drv_async")[0]
+        return out
     if "sync_timeout" in case:
         sends = case["events"].split()
         tau = parse_tau(case["sync_timeout"])
